@@ -15,7 +15,7 @@ pub struct Item {
 
 /// families that sampling checks never thin out (small, each member is there for a reason)
 pub fn always_included(family: &str) -> bool {
-    matches!(family, "G1-whole-programs" | "names" | "many-parameters")
+    matches!(family, "G1-whole-programs" | "names" | "many-parameters" | "redeclarations")
 }
 
 fn main_index(p: &RProgram) -> usize {
@@ -159,6 +159,8 @@ pub fn syntactic_family(tier: Tier) -> Vec<Item> {
                     v("__x9", tname("int")),
                     v("ifs", tname("int")),
                     v("typeB", tname("of_")),
+                    // a variable named like its own type (its type expression does not see it yet)
+                    v("of_", tname("of_")),
                 ],
                 body: vec![
                     RStmt::Assign(vname("if_count"), bin(Op::Add, evar("var_y"), evar("else1"))),
@@ -198,10 +200,29 @@ pub fn syntactic_family(tier: Tier) -> Vec<Item> {
         decls.push(RDecl::Proc { name: "none".into(), params: vec![], vars: vec![], body: vec![] });
         decls.push(main_with(vec![RStmt::Call(
             "five".into(),
-            vec![eint(1), bin(Op::Mul, RExpr::Paren(Arc::new(bin(Op::Add, evar("i"), eint(1)))), eint(2)), RExpr::Neg(Arc::new(evar("j"))), evar("m"), evar("i")],
+            vec![RExpr::Int(Lit::Chr(',')), bin(Op::Mul, RExpr::Paren(Arc::new(bin(Op::Add, evar("i"), eint(1)))), eint(2)), RExpr::Neg(Arc::new(evar("j"))), evar("m"), evar("i")],
         )]));
         for focus in [2usize, 3, 5] {
             out.push(Item { family: "many-parameters", program: RProgram { decls: decls.clone() }, focus_decl: focus });
+        }
+    }
+    // syntactically valid programs with redeclarations: two procedures of one name, procedures
+    // named like a type and like predefined entities, a type named like a procedure
+    {
+        let pr = |n: &str, body: Vec<RStmt>| RDecl::Proc { name: n.into(), params: vec![], vars: vec![RVarDecl { name: "i".into(), ty: tname("int") }], body };
+        let decls = vec![
+            RDecl::Type { name: "A".into(), ty: arr(2, tname("int")) },
+            pr("q", vec![RStmt::Assign(vname("i"), eint(1))]),
+            pr("A", vec![RStmt::Empty]),
+            pr("q", vec![RStmt::Assign(vname("i"), eint(2)), RStmt::Assign(vname("i"), eint(3))]),
+            pr("printi", vec![]),
+            RDecl::Type { name: "q".into(), ty: tname("int") },
+            pr("int", vec![RStmt::Call("q".into(), vec![])]),
+            pr("main", vec![RStmt::Call("q".into(), vec![])]),
+            pr("main", vec![]),
+        ];
+        for focus in [2usize, 3, 4, 6] {
+            out.push(Item { family: "redeclarations", program: RProgram { decls: decls.clone() }, focus_decl: focus });
         }
     }
     // G1: whole programs over tiny pools, every order of declarations
